@@ -201,18 +201,18 @@ func (c *Chunk) record(chunk pb.Chunk) *tracked {
 	td := c.tracked[key]
 	if chunk.ChunkId == 0 {
 		plog.Debugf("first chunk of %s received", c.ssid(chunk))
+		validator := rsm.NewSnapshotValidator()
+		if c.validate && !chunk.HasFileInfo {
+			if !validator.AddChunk(chunk.Data, chunk.ChunkId) {
+				return nil
+			}
+		}
 		if td != nil {
 			plog.Warningf("removing unclaimed chunks %s", key)
 			c.removeTempDir(td.first)
 		} else {
 			if c.full() {
 				plog.Errorf("max slot count reached, dropped a chunk %s", key)
-				return nil
-			}
-		}
-		validator := rsm.NewSnapshotValidator()
-		if c.validate && !chunk.HasFileInfo {
-			if !validator.AddChunk(chunk.Data, chunk.ChunkId) {
 				return nil
 			}
 		}
@@ -272,7 +272,9 @@ func (c *Chunk) addLocked(chunk pb.Chunk) bool {
 	}
 	if c.shouldValidate(chunk) {
 		if !td.validator.AddChunk(chunk.Data, chunk.ChunkId) {
-			plog.Warningf("ignored a invalid chunk %s", key)
+			plog.Warningf("dropped %s, invalid chunk %d", key, chunk.ChunkId)
+			c.removeTempDir(chunk)
+			c.reset(key)
 			return false
 		}
 	}
